@@ -1017,16 +1017,25 @@ def unit_bdd_hash(k, opts):
     same = gand(*[beq(x, y) for x, y in zip(A, B)])
     bad = False
     ve = Veq(lenient=True)
+    # a hash that feeds allocation addresses to the hasher cannot agree between two environments holding equal diagrams
+    uses_addr = any(isinstance(x, AddrV) for g, sq in ra + rb for x in sq.items)
     for ga, sa in ra:
         for gb, sb in rb:
             bad = gor(bad, gand(ga, gb, gnot(ve.eq(sa, sb))))
     res = dict(queries=[], method='<BDD as Hash>::hash')
-    for name, neg in (('no panic', gor(pa, pb)), ('equal functions => equal hasher write sequences', gand(same, bad))):
+    for name, neg in (('no panic', gor(pa, pb)), ('equal functions => equal hasher write sequences', gand(same, bad)),
+                      ('the hash does not depend on allocation addresses (equal diagrams of two environments hash equally)', True if uses_addr else False)):
         q = decide(name, w.constraints, neg, timeout_s=opts.get('timeout', 250))
         q['expect'] = 'unsat'
-        q.pop('model', None)
+        m = q.pop('model', None)
         res['queries'].append(q)
-        if q['result'] == 'sat':
+        if q['result'] == 'sat' and 'allocation addresses' in name:
+            m = m or {}
+            tt = ''.join('1' if m.get('a_%d' % j) else '0' for j in range(1 << k))
+            if '1' not in tt or '0' not in tt:
+                tt = '01' * (1 << (k - 1))
+            res['cex'] = dict(obligation=name, case=dict(kind='hash2env', k=k, ids=concrete_ids(m, w), tt=tt))
+        elif q['result'] == 'sat':
             res['eqfail'] = name
         elif q['result'] != 'unsat':
             res['status'] = 'inconclusive'
